@@ -39,7 +39,8 @@ Expected(e) ==
                                  tq == FDiv(FI(j), FI(e.t[2]))
                                  dir == MatVec(Rodrigues(cs[1], cs[2], e.axis), VScale(e.from, FInv(e.fl)))
                              IN VScale(dir, LerpFast(e.fl, FMul(e.fl, e.mu), tq))
-AxiomOps == {"v_mag", "v_norm", "v_angle"}
+AxiomOps == {"v_mag", "v_norm", "v_angle", "v_angle_f"}
+PI16 == 205887      \* round(pi * 2^16)
 Axioms(e) ==
     CASE e.op = "v_mag" -> IsRootOf(e.obs, Norm2(e.a))
       \* normalisation: a parallel vector of unit length (v = obs.v * obs.m, m the positive magnitude); refused only for zero
@@ -54,6 +55,9 @@ Axioms(e) ==
                                   /\ FLe(F0, cs[2])
                                   /\ FMul(FSq(cs[1]), FMul(Norm2(e.a), Norm2(e.b))) = FSq(Dot(e.a, e.b))
                                   /\ FSgn(cs[1]) = FSgn(Dot(e.a, e.b))
+      \* floats: the angle between e1 and the direction at `eighths` * 45 degrees, whatever the common length of the two
+      \* vectors (plain integers: round(angle * 2^16), -1 = not finite)
+      [] e.op = "v_angle_f" -> e.obs >= 0 /\ e.obs - (e.eighths * PI16) \div 4 \in -64 .. 64
       \* preconditions of the constructive records
       [] e.op = "v_refract" -> Norm2(e.i) = F1 /\ Norm2(e.n) = F1 /\ FLe(F0, e.rootk)
                                /\ (FLe(F0, RefractK(e.i, e.n, e.eta)) => FSq(e.rootk) = RefractK(e.i, e.n, e.eta))
@@ -84,7 +88,8 @@ VSlerp == Step("v_slerp")
 VMag == Step("v_mag")
 VNorm == Step("v_norm")
 VAngle == Step("v_angle")
-Next == VDot \/ VMag2 \/ VDist2 \/ VReflect \/ VCross \/ VSide \/ VHomog \/ VFace \/ VPred \/ VRefract \/ VTry \/ VSlerp
+VAngleF == Step("v_angle_f")
+Next == VAngleF \/ VDot \/ VMag2 \/ VDist2 \/ VReflect \/ VCross \/ VSide \/ VHomog \/ VFace \/ VPred \/ VRefract \/ VTry \/ VSlerp
         \/ VMag \/ VNorm \/ VAngle
 Accepted == IF TLCGet("stats").diameter - 1 = Len(Rec) THEN TRUE
             ELSE PrintT(ToJson([tag |-> "REJECTED_AT", l |-> TLCGet("stats").diameter])) /\ FALSE
